@@ -12,13 +12,25 @@ mod verif_c06 {
             a[i] = i as u8;
             i += 1;
         }
-        let mut seen = [false; 46656]; // 6^6 codes
+        const FACT: [usize; 7] = [1, 1, 2, 6, 24, 120, 720];
+        let mut seen = [false; 720]; // one slot per permutation rank (Lehmer code)
         let mut count: u32 = 0;
         let r: Result<(), ()> = for_each_permutation_of(&mut a, |p| {
+            // rank of p among the permutations of 0..N; also checks that p IS a permutation of 0..N
             let mut code: usize = 0;
             let mut j = 0;
             while j < N {
-                code = code * 6 + p[j] as usize;
+                assert!((p[j] as usize) < N);
+                let mut smaller = 0;
+                let mut k = j + 1;
+                while k < N {
+                    assert!(p[k] != p[j]);
+                    if p[k] < p[j] {
+                        smaller += 1;
+                    }
+                    k += 1;
+                }
+                code += smaller * FACT[N - 1 - j];
                 j += 1;
             }
             assert!(!seen[code]); // pairwise distinct
